@@ -460,3 +460,22 @@ func (c *Ctx) NoPathAfterWhen(from, to ssa.Instruction, key string, lits ...Lit)
 	ok := !r.After(from)[to]
 	return c.Check(ok, key, to, fmt.Sprintf("%s is not reachable after %s when %s", instrLabel(to), instrLabel(from), litsString(lits)))
 }
+
+// StringConst resolves a package-level string constant (e.g. ccv.ConsumerPortID).
+func (c *Ctx) StringConst(spec string) (string, bool) {
+	full := q(spec)
+	i := strings.LastIndex(full, ".")
+	pkg, name := full[:i], full[i+1:]
+	sp := c.P.SSAPkgs[pkg]
+	if sp == nil {
+		sp = c.P.SSA.ImportedPackage(pkg)
+	}
+	if sp == nil {
+		return "", false
+	}
+	o, ok := sp.Pkg.Scope().Lookup(name).(*types.Const)
+	if !ok || o.Val().Kind() != constant.String {
+		return "", false
+	}
+	return constant.StringVal(o.Val()), true
+}
